@@ -332,6 +332,9 @@ OPTION_SPACE = [
     ('uncollapse', [None, 'one', 'deep']),
     ('name', [None, 'hostile', 'int', 'plain']),
     ('root_path', [None, 'hostile']),
+    ('css_classes', [None, ['my-class'], ['c1', 'simple-value', 'c1', 'pyglove']]),
+    ('summary_color', [None, ('red', None), ('#fff', 'rgb(1, 2, 3)')]),
+    ('key_color', [None, (None, 'blue'), ('white', 'darkblue')]),
 ]
 DEFAULTS = {k: v[0] for k, v in OPTION_SPACE}
 
@@ -373,7 +376,8 @@ def resolve_options(sym, value, rng, data):
   kw = {}
   items = child_items(value) or []
   keys = [k for k, _ in items]
-  for name in ('enable_summary', 'enable_summary_for_str', 'max_summary_len_for_str', 'enable_summary_tooltip', 'enable_key_tooltip', 'key_style', 'collapse_level'):
+  for name in ('enable_summary', 'enable_summary_for_str', 'max_summary_len_for_str', 'enable_summary_tooltip', 'enable_key_tooltip', 'key_style', 'collapse_level',
+               'css_classes', 'summary_color', 'key_color'):
     if sym[name] != DEFAULTS[name] or rng.random() < 0.3:
       kw[name] = sym[name]
   root = []
@@ -408,10 +412,12 @@ def model_options(kw):
           g('max_summary_len_for_str'), trlib.enc(bool(g('enable_summary_tooltip'))), trlib.enc(bool(g('enable_key_tooltip'))),
           1 if g('key_style') == 'label' else 0,
           trlib.opt(kw.get('include_keys'), keylist), trlib.opt(kw.get('exclude_keys'), keylist), trlib.opt(g('collapse_level'), lambda z: z),
-          [keylist(list(p.keys)) for p in kw.get('uncollapse', [])]]
+          [keylist(list(p.keys)) for p in kw.get('uncollapse', [])],
+          [trlib.enc(c) for c in (kw.get('css_classes') or [])],
+          [trlib.opt(c) for c in (kw.get('summary_color') or (None, None))], [trlib.opt(c) for c in (kw.get('key_color') or (None, None))]]
 
 MODELLED = {'name', 'root_path', 'enable_summary', 'enable_summary_for_str', 'max_summary_len_for_str', 'enable_summary_tooltip', 'enable_key_tooltip',
-            'key_style', 'include_keys', 'exclude_keys', 'collapse_level', 'uncollapse'}
+            'key_style', 'include_keys', 'exclude_keys', 'collapse_level', 'uncollapse', 'css_classes', 'summary_color', 'key_color'}
 
 # ------------------------------------------------------------------------------------------------
 # cases: a value and keyword arguments, rebuilt deterministically from seeds (so a replay file is small)
@@ -469,7 +475,7 @@ def extra_options(extra, value, rng, data):
     keys = [k for k, _ in (child_items(value) or []) if not (isinstance(k, str) and any(c in k for c in '.[]'))]
     return dict(child_config={k: dict(collapse_level=None, enable_summary_tooltip=False) for k in keys[:1]} | {'__default__': dict(key_style='label')})
   raise ValueError(extra)
-EXTRAS = ['exotic', 'debug', 'css_classes', 'title', 'colors', 'color_fn', 'highlight', 'key_style_fn', 'include_fn', 'uncollapse_fn', 'hide_default', 'child_config']
+EXTRAS = ['exotic', 'debug', 'title', 'color_fn', 'highlight', 'key_style_fn', 'include_fn', 'uncollapse_fn', 'hide_default', 'child_config']
 
 def render(value, kw, content_only=True):
   return pg().to_html_str(value, content_only=content_only, **kw)
@@ -758,12 +764,16 @@ def run(ctx):
       specs.append(dict(kind='gen', sseed=sseed if vi % 2 == 0 else rng.getrandbits(32), dseed=rng.getrandbits(32), hostile=True, sym=row, depth=rng.choice([1, 2, 2, 3])))
   for _ in range(ctx.scale(400, 4000)):      # default options, deeper values
     specs.append(dict(kind='gen', sseed=rng.getrandbits(32), dseed=rng.getrandbits(32), hostile=rng.random() < 0.9, sym=dict(DEFAULTS), depth=rng.choice([2, 3, 4])))
-  if ctx.thorough:                           # full product of the modelled options on small values
-    small = [(n, v) for n, v in OPTION_SPACE]
-    for combo in itertools.product(*[range(len(v)) for _, v in small]):
-      if True:
-        specs.append(dict(kind='gen', sseed=rng.getrandbits(32), dseed=rng.getrandbits(32), hostile=True,
-                          sym={small[i][0]: small[i][1][c] for i, c in enumerate(combo)}, depth=rng.choice([1, 2])))
+  if ctx.thorough:                           # full product of the interacting options (reduced domains) on small values
+    PRODUCT = [('enable_summary', [None, True, False]), ('enable_summary_for_str', [True, False]), ('max_summary_len_for_str', [80, 12]),
+               ('enable_summary_tooltip', [True, False]), ('enable_key_tooltip', [True, False]), ('key_style', ['summary', 'label']),
+               ('include_keys', [None, 'some', 'none']), ('exclude_keys', [None, 'some']), ('collapse_level', [1, None, 0, 2]), ('uncollapse', [None, 'deep'])]
+    nprod = 0
+    for combo in itertools.product(*[v for _, v in PRODUCT]):
+      sym = {n: c for (n, _), c in zip(PRODUCT, combo)}
+      for n_, v_ in OPTION_SPACE[10:]: sym[n_] = rng.choice(v_)
+      specs.append(dict(kind='gen', sseed=rng.getrandbits(32), dseed=rng.getrandbits(32), hostile=True, sym=sym, depth=rng.choice([1, 2]))); nprod += 1
+    ctx.extra['full_product_cases'] = nprod
   nextra = 0
   for ex in EXTRAS:                           # options outside the model: oracle only
     for _ in range(ctx.scale(12, 150)):
